@@ -6,7 +6,8 @@
    `sane_b f` (decidable; evaluated on every observed workspace by the correspondence) says every
    file of f is reachable through directories — true of every real tree. *)
 From RipV Require Import Base.Prelude Base.Fs Model.Paths Model.Checkpoint Proofs.PathsProofs Proofs.CheckpointProofs
-  Proofs.AutoCoverProofs Proofs.CheckpointMultiProofs Gen.AutoCover.
+  Proofs.AutoCoverProofs Proofs.CheckpointMultiProofs Proofs.AutoPatchProofs Gen.AutoCover.
+From RipV Require Model.Patch.
 Require Import Coq.Strings.String.
 
 (* For every workspace f, every list of requested path strings, EVERY later workspace f2 (whatever
@@ -144,6 +145,52 @@ Print Assumptions c14_repo_auto_cover_wf.
 Theorem c14_repo_patch_wf : patch_wf gen_patch_variants_ok gen_patch_cover gen_patch_progs = true.
 Proof. exact gen_patch_ok. Qed.
 Print Assumptions c14_repo_patch_wf.
+
+(* apply_patch on the model of C12 (Model/Patch.v: parser, hunks, exec / run with the undo list, rollback - tied to
+   the real Workspace::apply_patch by C12's correspondence).  For EVERY workspace and every operation list whose paths
+   passed the parser's guards (relative, no `..`): if no affected path lies strictly below another affected path (one
+   that is not a directory of the workspace), the checkpoint of Patch::affected_paths - what files_for_invocation hands
+   to the store - undoes a successful apply completely: the rewind succeeds and every file of the workspace is as
+   before the call.  (A failed apply changes no file: C12's c12_atomic.) *)
+Theorem c14_auto_patch_undone_partial : forall (f : fs) (root : str) (ops : list Patch.op) (g : fs) (c : list (list N)) (ck : list entry),
+  is_absolute root = true -> tree_b f = true -> nonul_b f = true ->
+  (forall p, In p (Patch.affected_paths ops) -> is_absolute p = false /\ has_parent p = false) ->
+  (forall p q, In p (Patch.affected_paths ops) -> In q (Patch.affected_paths ops) ->
+     (exists s, comps q = comps p ++ s /\ comps p <> [] /\ s <> []) -> lookup f (comps p) = Some Dir) ->
+  create f root (Patch.affected_paths ops) = Ok ck ->
+  Patch.apply_ops true [] f ops = Patch.Applied g c ->
+  exists f2, rewind g ck = (f2, None) /\ forall q, file_at f2 q = file_at f q.
+Proof. exact auto_patch_undone_b. Qed.
+Print Assumptions c14_auto_patch_undone_partial.
+
+(* the full statement (no hypothesis on nesting) is FALSE of the model and of the code - OPEN finding S10j *)
+Definition c14_auto_patch_undone_full : Prop :=
+  forall (f : fs) (root : str) (ops : list Patch.op) (g : fs) (c : list (list N)) (ck : list entry),
+  is_absolute root = true -> tree_b f = true -> nonul_b f = true ->
+  (forall p, In p (Patch.affected_paths ops) -> is_absolute p = false /\ has_parent p = false) ->
+  create f root (Patch.affected_paths ops) = Ok ck ->
+  Patch.apply_ops true [] f ops = Patch.Applied g c ->
+  exists f2, rewind g ck = (f2, None) /\ forall q, file_at f2 q = file_at f q.
+
+(* `*** Delete File: a.txt` + `*** Add File: a.txt/x.txt`: the patch applies, a.txt is a directory afterwards, and the
+   rewind to the checkpoint of its affected paths fails (EISDIR while it snapshots a.txt) - the edit cannot be undone.
+   Replayed on the real ToolRunner + hook: corpus/C14/s10j_patch_dir_at_covered_file.json, KNOWN_FINDINGS S10j (open). *)
+Theorem c14_auto_patch_dir_refuted :
+  exists f root text g c ck e,
+    tree_b f = true /\ nonul_b f = true
+    /\ Patch.apply_patch true [] f text = Patch.Applied g c
+    /\ (exists ops, Patch.parse_patch text = Some ops /\ create f root (Patch.affected_paths ops) = Ok ck)
+    /\ rewind g ck = (g, Some e) /\ g <> f.
+Proof. exact auto_patch_dir_refuted. Qed.
+Print Assumptions c14_auto_patch_dir_refuted.
+
+(* the hypotheses of c14_auto_patch_undone_partial are satisfiable: add under new directories + delete *)
+Example c14_ex_auto_patch_undone :
+  tree_b k_ws = true /\ nonul_b k_ws = true
+  /\ exists ck g c f2, create k_ws j_root (Patch.affected_paths k_ops) = Ok ck
+       /\ Patch.apply_ops true [] k_ws k_ops = Patch.Applied g c
+       /\ file_at g [k_b] = None /\ rewind g ck = (f2, None) /\ file_at f2 [k_b] = Some (bs "bee"%string).
+Proof. exact ex_auto_patch_undone. Qed.
 
 (* a tool-side resolver that trims its argument while the checkpoint side takes it literally (seeded change C14-4):
    `write "notes.txt "` checkpoints the absent "notes.txt ", edits notes.txt, and the rewind succeeds without
